@@ -1,7 +1,7 @@
 (* C07 - JOIN admits exactly those whom key, bans, invitation, limit and quota allow.
    Statements only; proofs in IRCP.JoinP, IRCP.JoinP2, IRCP.BanP. *)
 From IRC Require Import Str Wild Glob Parse Reply State Handlers.
-From IRCP Require Import BanP JoinP JoinP2.
+From IRCP Require Import BanP JoinP JoinP2 JoinListP.
 From stdpp Require Import gmap.
 
 Section C07.
@@ -55,9 +55,22 @@ Proof. exact join_insert_existing. Qed.
 Theorem C07_refused_effect : forall nick s ch create, join_insert nick s (ch, (false, create)) = Ok s.
 Proof. exact join_insert_refused. Qed.
 
+(* comma lists, with repeats: the plan of decisions is the one the statement prescribes - every
+   entry is judged by the admission rule (C07_check_iff) against the state at the START of the
+   command, with the key at its own position; a channel accepted earlier in the same list is skipped
+   (no second join, no second announcement); the quota compares max_joins with the channels already
+   held plus the entries accepted so far - and the new state is that plan applied entry by entry
+   (C07_accepted_effect, C07_refused_effect, C16_create_effect) *)
+Theorem C07_comma_list : forall s c chs keys r nick u,
+  c_nick c = Some nick -> users s !! nick = Some u -> process_join cfg i s c chs keys = Ok r ->
+  exists plan, plan_ok cfg s c u nick (client_name c) keys [] (N.of_nat (size (u_chans u))) 0 chs plan /\
+    rfold (join_insert nick) plan s = Ok (h_sh r) /\ h_conn r = c /\ h_quit r = false.
+Proof. exact (process_join_plan cfg i). Qed.
+
 End C07.
 
 Print Assumptions C07_check_iff.
+Print Assumptions C07_comma_list.
 Print Assumptions C07_single_channel.
 Print Assumptions C07_accepted_effect.
 Print Assumptions C07_refused_effect.
